@@ -612,10 +612,18 @@ def check_pipeline(ctx, spec):
             else:
                 os.environ['CELL_TYPE_MAPPER_VERIF_TRACE'] = old
         if not res['ok'] or res['json'] is None:
-            # not this property's business (C01/C14); count and move on
-            ctx.count('pipeline:run-failed:' +
-                      ou.classify_error(res['error']))
+            # a crash is not a C15 violation (C01/C14), but the property is
+            # then not shown to hold on this output: report without input
+            ecls = ou.classify_error(res['error'])
+            ctx.count('pipeline:run-failed:' + ecls)
             ctx.case(None)
+            ctx.violation(
+                'C15/pipeline/run-failed/' + ecls,
+                'run_mapping failed on a generated valid mapping problem '
+                '(%r): no output files to compare' % (res['error'],),
+                dict(spec, broken='pipeline fixture: run_mapping must '
+                     'succeed on the generated problems'),
+                found_input=False)
             return
         out = res['json']
         results = out['results']
